@@ -3,11 +3,15 @@
 # Environment = a standard SPI master in the configured mode (CPOL/CPHA), SCK half-period h system cycles:
 #   begin : CS inactive for GAP cycles (word_out for the first word presented), then CS active with SCK idle for h
 #   word  : (first bit of a word) choose the word v the master sends and the word_out value to present for the
-#           *next* word; word_out changes only here, i.e. >= h cycles after the previous word's last sample edge and
-#           a whole word before the next one starts
+#           *next* word; word_out changes at the end of that first bit period, i.e. at least 3 cycles after the previous
+#           word's last sample edge (after its word_complete in the class; the attribute doc says "latched in on next
+#           word_complete") and it is then stable through this word's last sample edge.  (word_size 1: the value
+#           present at a word's sample edge is expected back in the next word.)
 #   bit   : one SCK period.  CPHA=0: [SCK idle, SDI=b] x h, [SCK active] x h.  CPHA=1: [SCK active, SDI=b] x h,
 #           [SCK idle] x h.  The sample edge is the boundary between the two halves in both cases.
 #           ("narrow" configs drive SDI=b only in the cycle before and the cycle after the sample edge, ~b elsewhere)
+#           The two phases may have different lengths (configs "ha"/"hb", default both h); phases of ONE system cycle
+#           are included ("fast" configs) - the class' edge detector (one register) still sees every edge then.
 #   end   : (any bit position = CS abort; at a word boundary = normal end) SCK idle for h with CS active, CS inactive
 #   bitend/wordend (configs with cs_offsets): one more SCK period during which CS is released after e = 0 .. 2h cycles,
 #           i.e. at *every* cycle offset relative to both SCK edges: e = 0 same cycle as the first edge, e = h same
@@ -18,9 +22,11 @@
 #
 # Oracle (from the statement):
 #   * after the word_size-th, 2*word_size-th, ... sample edge of a transaction exactly one word_complete strobe must
-#     appear before the next sample edge / next CS assertion, with word_in == the word sent (bits in the configured
+#     appear before the next sample edge / next CS assertion (SCK periods < 4 cycles: at the latest in the cycle of the
+#     following word's last sample edge - the statement fixes no latency, and a registered report needs 2 cycles), with word_in == the word sent (bits in the configured
 #     order); a strobe at any other time, or a second one, is a violation; an aborted partial word is not reported;
-#   * CPHA=1 (data changes on the leading edge): around every sample edge (last cycle before, first cycle after) SDO
+#   * CPHA=1 (data changes on the leading edge): around every sample edge (last cycle before - only if the active phase
+#     is >= 2 cycles, a registered output needs one cycle after the leading edge - and first cycle after) SDO
 #     must be the next bit, MSB first, of the word presented on word_out (first word: presented while CS was
 #     inactive; later words: presented during the whole preceding word).  For msb_first=False the statement still
 #     says "MSB first" while the class shifts LSB first: both orders are admitted there (candidate set).
@@ -37,6 +43,7 @@ def configs(tier):
     def add(ws, cpol, cpha, msb=True, h=2, **kw):
         out.append(dict(word_size=ws, cpol=cpol, cpha=cpha, msb_first=msb, h=h, **kw))
     if tier == "quick":
+        add(3, 0, 1, ha=1, hb=1); add(4, 1, 1, ha=2, hb=1, cs_offsets=True); add(3, 0, 0, ha=1, hb=2, msb=False)
         add(3, 0, 1, cs_offsets=True); add(2, 1, 0, h=3, cs_offsets=True); add(4, 0, 0, cs_offsets=True)
         add(3, 0, 0, h=3); add(4, 1, 1); add(5, 1, 0); add(5, 0, 1, msb=False, h=3)
         add(7, 1, 1, narrow=True); add(8, 0, 0, msb=False); add(8, 0, 1, h=3); add(12, 0, 1); add(12, 1, 0, h=3)
@@ -52,6 +59,13 @@ def configs(tier):
             add(ws, 0, 1, full=True, max_words=3, cs_offsets=(ws == 3)); add(ws, 1, 0, msb=False, h=3, full=True, max_words=3, cs_offsets=(ws == 3))
         add(7, 0, 1, cs_idles_high=True); add(10, 1, 0, msb=False, cs_idles_high=True, h=3)
         add(5, 0, 1, max_words=5); add(6, 0, 0, max_words=5)
+        for ws in (2, 3, 4, 5, 8, 12):
+            for cpol, cpha in ((0, 1), (1, 1), (0, 0), (1, 0)):
+                for ha, hb in ((1, 1), (1, 2), (2, 1), (1, 3), (3, 1)):
+                    if cpha == 0 and (ws > 5 or (ha, hb) in ((1, 3), (3, 1))): continue
+                    i = ws + cpol + ha
+                    add(ws, cpol, cpha, msb=bool(i & 1) or cpha == 1 and ws <= 4, ha=ha, hb=hb, narrow=bool(i & 2),
+                        cs_offsets=(ws <= 4), max_words=3)
     return out
 
 
@@ -66,6 +80,9 @@ class SpiSpec(Spec):
         super().__init__(cfg, tier)
         ws = self.ws = cfg["word_size"]
         self.cpol, self.cpha, self.msb, self.h = cfg["cpol"], cfg["cpha"], cfg["msb_first"], cfg["h"]
+        self.ha, self.hb = cfg.get("ha", self.h), cfg.get("hb", self.h)      # phase before / after the sample edge
+        self.hs = max(2, self.ha, self.hb)                                   # CS set-up and hold
+        self.loose = self.ha + self.hb < 4                                   # report deadline, see header
         self.narrow = cfg.get("narrow", False)
         self.cs_offsets = bool(cfg.get("cs_offsets"))
         self.cs_on = 0 if cfg.get("cs_idles_high") else 1
@@ -117,8 +134,8 @@ class SpiSpec(Spec):
         else:
             acts.append(("bit",))
         if self.cs_offsets and k < self.max_words:
-            for e in range(2 * self.h + 1):
-                counted = 1 if e > self.h else 0
+            for e in range(self.ha + self.hb + 1):
+                counted = 1 if e > self.ha else 0
                 if (j + counted) % self.ws != 0 and env[8] == 0: continue      # would be a mid-word abort, none left
                 if j == 0:
                     acts += [("wordend", v, e) for v in (self.rx_vals[0], self.rx_vals[-1])]
@@ -128,13 +145,13 @@ class SpiSpec(Spec):
 
     def assumptions(self):
         return ["mid-word CS aborts per history (bound): quick unlimited for word sizes <= 6, one beyond; thorough unlimited <= 8, two <= 12, one beyond",
-                "SPI master in the device's configured mode; SCK half-period 2 or 3 system cycles",
-                "CS is asserted with SCK idle, set-up (CS active to first SCK edge) >= h cycles, CS inactive gap >= 3 cycles",
-                "CS release: h cycles after the end of a bit period, or (configs with cs_offsets) at every cycle offset 0..2h inside an SCK period incl. the same cycle as either SCK edge; a sample edge in the cycle in which CS is already inactive does not count",
+                "SPI master in the device's configured mode; SCK phases of 1, 2 or 3 system cycles each (also asymmetric); minimum supported phase length = 1 system cycle (edge detector is one register); with a 1-cycle active phase SDO (registered) is only compared in the cycle of the sample edge itself",
+                "CS is asserted with SCK idle, set-up (CS active to first SCK edge) >= max(2, phase) cycles, CS inactive gap >= 3 cycles",
+                "CS release: >= 2 cycles after the end of a bit period, or (configs with cs_offsets) at every cycle offset inside an SCK period incl. the same cycle as either SCK edge; a sample edge in the cycle in which CS is already inactive does not count",
                 "a word whose last sample edge happened while CS was active must be reported however soon CS is released afterwards (by the next CS assertion)",
                 "SDI valid at least one system cycle either side of the sample edge ('narrow' configs drive the complement elsewhere)",
-                "word_out changes only while CS is inactive or at the start of a word (it is then held for that whole word and is the value expected back in the following word)",
-                "word_complete must strobe before the next sample edge (>= 2h cycles) or the next CS assertion; no exact latency demanded",
+                "word_out changes only while CS is inactive or at the end of the first bit period of a word (>= 3 cycles after the previous word's last sample edge); the value present at a word's last sample edge is the one expected back in the following word",
+                "word_complete must strobe before the next sample edge or the next CS assertion (SCK period < 4 cycles: at the latest in the cycle of the following word's last sample edge); no exact latency demanded",
                 "msb_first=False: SDO order may be either MSB-first (statement) or LSB-first (configured order), consistently"]
 
     # -- one system cycle with the monitor
@@ -168,65 +185,83 @@ class SpiSpec(Spec):
         self.cover["sdo_checked"] += 1
         if st["k"] >= 1: self.cover["sdo_checked_later_word"] += 1
 
-    def _bit(self, cur, st):
-        ws, h = self.ws, self.h
+    def _edge_cycle(self, cur, st, j, v, lvl, sdi, cs):
+        """the cycle in which the device sees a counted sample edge (CS active): report bookkeeping around it"""
+        late = None
+        if st["pending"] >= 0:
+            if not self.loose:
+                self._need_reported(st, "next sample edge")       # raises
+            elif j + 1 == self.ws:
+                late = st["pending"]           # fast clock: may still be reported in this very cycle
+        if j + 1 == self.ws and late is None:
+            st["pending"] = v                  # completed by the edge the device sees in this cycle
+            st["_closing"] = 1                 # (transient, cover bookkeeping: k is incremented at the end of the step)
+        o = self._cyc(cur, st, lvl, sdi, cs)
+        if late is not None:
+            self._need_reported(st, "the following word's last sample edge")
+            st["pending"] = v
+            st["_closing"] = 1
+        if j + 1 == self.ws:
+            st["txnext"] = st["wout"]          # the value presented at the word's last sample edge
+        return o
+
+    def _bit(self, cur, st, new_wout=None):
+        ws, ha, hb = self.ws, self.ha, self.hb
         j, v = st["j"], st["v"]
         b = (v >> (ws - 1 - j)) & 1 if self.msb else (v >> j) & 1
         lv_a, lv_b = (self.idle_lvl, self.act_lvl) if self.cpha == 0 else (self.act_lvl, self.idle_lvl)
-        for i in range(h):
-            sdi = b if (not self.narrow or i == h - 1) else 1 - b
+        for i in range(ha):
+            sdi = b if (not self.narrow or i == ha - 1) else 1 - b
             o = self._cyc(cur, st, lv_a, sdi, self.cs_on)
-            if self.cpha == 1 and i == h - 1: self._check_sdo(st, o, "last cycle before the sample edge")
-        # the next cycle is the sample edge: the previous word must have been reported by now
-        self._need_reported(st, "next sample edge")
-        if j + 1 == ws:
-            st["pending"] = v          # completed by the edge the device sees in the next cycle
-            st["_closing"] = 1         # (transient, cover bookkeeping: k is incremented at the end of this step)
-        for i in range(h):
+            if self.cpha == 1 and i == ha - 1 and ha >= 2: self._check_sdo(st, o, "last cycle before the sample edge")
+        for i in range(hb):
             sdi = b if (not self.narrow or i == 0) else 1 - b
-            o = self._cyc(cur, st, lv_b, sdi, self.cs_on)
-            if self.cpha == 1 and i == 0: self._check_sdo(st, o, "first cycle after the sample edge")
+            if i == 0:
+                o = self._edge_cycle(cur, st, j, v, lv_b, sdi, self.cs_on)
+                if self.cpha == 1: self._check_sdo(st, o, "first cycle after the sample edge")
+            else:
+                self._cyc(cur, st, lv_b, sdi, self.cs_on)
+        if new_wout is not None: st["wout"] = new_wout
         st["j"] = j + 1
         if st["j"] == ws:
             st["_closing"] = 0
             st["k"] += 1
             st["j"] = 0
-            st["txcur"] = st["wout"]
+            st["txcur"] = st.pop("txnext")
             self.cover["word_sent"] += 1
             if st["k"] >= 2: self.cover["second_word_sent"] += 1
 
     def _bit_release(self, cur, st, e):
         """one SCK period with CS active only during its first e cycles; ends the transaction"""
-        ws, h = self.ws, self.h
+        ws, ha, hb = self.ws, self.ha, self.hb
         j, v = st["j"], st["v"]
         b = (v >> (ws - 1 - j)) & 1 if self.msb else (v >> j) & 1
         lv_a, lv_b = (self.idle_lvl, self.act_lvl) if self.cpha == 0 else (self.act_lvl, self.idle_lvl)
-        counted = e > h                         # CS still active in the cycle in which the device sees the sample edge
-        for i in range(2 * h):
+        counted = e > ha                        # CS still active in the cycle in which the device sees the sample edge
+        for i in range(ha + hb):
             cs = self.cs_on if i < e else 1 - self.cs_on
-            if i == h and counted:
-                self._need_reported(st, "next sample edge")
-                if j + 1 == ws:
-                    st["pending"] = v
-                    st["_closing"] = 1
-            sdi = b if (not self.narrow or i in (h - 1, h)) else 1 - b
-            o = self._cyc(cur, st, lv_a if i < h else lv_b, sdi, cs)
+            sdi = b if (not self.narrow or i in (ha - 1, ha)) else 1 - b
+            if i == ha and counted:
+                o = self._edge_cycle(cur, st, j, v, lv_b, sdi, cs)
+            else:
+                o = self._cyc(cur, st, lv_a if i < ha else lv_b, sdi, cs)
             if self.cpha == 1 and i < e:
-                if i == h - 1: self._check_sdo(st, o, "last cycle before the sample edge")
-                elif i == h: self._check_sdo(st, o, "first cycle after the sample edge")
+                if i == ha - 1 and ha >= 2: self._check_sdo(st, o, "last cycle before the sample edge")
+                elif i == ha: self._check_sdo(st, o, "first cycle after the sample edge")
         self._cyc(cur, st, self.idle_lvl, 0, 1 - self.cs_on)
+        st.pop("txnext", None)
         newj = j + (1 if counted else 0)
         if newj == ws:
             st["_closing"] = 0
             st["k"] += 1
             self.cover["word_sent"] += 1
             if st["k"] >= 2: self.cover["second_word_sent"] += 1
-            self.cover["release_%d_after_last_edge" % (e - h)] += 1
+            self.cover["release_%d_after_last_edge" % (e - ha)] += 1
         else:
             if newj:
                 self.cover["abort_mid_word"] += 1
                 if st["aborts"] > 0: st["aborts"] -= 1
-            if e == h: self.cover["release_with_sample_edge"] += 1
+            if e == ha: self.cover["release_with_sample_edge"] += 1
             if e == 0: self.cover["release_with_first_edge"] += 1
         st.update(active=0, k=0, j=0, v=0, txcur=0)
 
@@ -252,7 +287,7 @@ class SpiSpec(Spec):
             for _ in range(GAP):
                 self._cyc(cur, st, self.idle_lvl, 0, 1 - self.cs_on)
             self._need_reported(st, "next CS assertion")
-            for _ in range(self.h):
+            for _ in range(self.hs):
                 self._cyc(cur, st, self.idle_lvl, 0, self.cs_on)
             st.update(active=1, k=0, j=0, txcur=st["wout"])
 
@@ -260,15 +295,14 @@ class SpiSpec(Spec):
         kind = a[0]
         if kind == "word":
             st["v"] = a[1]
-            st["wout"] = a[2]
-            self._bit(cur, st)
+            self._bit(cur, st, new_wout=a[2])
         elif kind == "bit":
             self._bit(cur, st)
         else:
             if st["j"]:
                 self.cover["abort_mid_word"] += 1
                 if st["aborts"] > 0: st["aborts"] -= 1
-            for _ in range(self.h):
+            for _ in range(self.hs):
                 self._cyc(cur, st, self.idle_lvl, 0, self.cs_on)
             self._cyc(cur, st, self.idle_lvl, 0, 1 - self.cs_on)
             st.update(active=0, k=0, j=0, v=0, txcur=0)
@@ -278,7 +312,8 @@ class SpiSpec(Spec):
             ["report", "word_sent", "second_word_sent", "report_word2", "report_word3"]
         if self.cpha == 1: g += ["sdo_checked", "sdo_checked_later_word"]
         if self.cs_offsets:
-            g += ["release_1_after_last_edge", "release_2_after_last_edge", "release_with_sample_edge", "release_with_first_edge"]
+            g += ["release_1_after_last_edge", "release_with_sample_edge", "release_with_first_edge"]
+            if self.hb >= 2: g.append("release_2_after_last_edge")
         return g
 
 
